@@ -53,6 +53,7 @@ type effCtx struct {
 	memo    map[*ssa.Function]*Effects
 	busy    map[*ssa.Function]bool
 	cyclic  bool
+	logMemo map[*ssa.Function]int
 }
 
 func (c *effCtx) ofFunc(fn *ssa.Function) *Effects {
@@ -369,4 +370,81 @@ func fnTypes(fn *ssa.Function) []types.Type {
 		recv = r.Type()
 	}
 	return sigTypes(fn.Signature, recv)
+}
+
+// mayLogBlocks: may the code perform a call that is recorded in a ghost call log?
+func (c *effCtx) mayLogBlocks(fn *ssa.Function, blocks []*ssa.BasicBlock) bool {
+	for _, b := range blocks {
+		for _, in := range b.Instrs {
+			ci, ok := in.(ssa.CallInstruction)
+			if !ok {
+				continue
+			}
+			com := ci.Common()
+			if com.IsInvoke() {
+				fc := c.P.Contracts.Funcs[ifaceKey(com)]
+				if fc == nil || fc.Logged {
+					return true
+				}
+				continue
+			}
+			switch cal := com.Value.(type) {
+			case *ssa.Builtin:
+				continue
+			case *ssa.Function:
+				if c.mayLogFunc(cal) {
+					return true
+				}
+			case *ssa.MakeClosure:
+				if c.mayLogFunc(cal.Fn.(*ssa.Function)) {
+					return true
+				}
+			default:
+				if fc := c.P.Contracts.Funcs[FuncKey(fn)]; fc != nil {
+					if key, ok := fc.CallsAs[describeValue(fn, com.Value)]; ok {
+						if sc := c.P.Contracts.Funcs[key]; sc != nil && !sc.Logged {
+							continue
+						}
+					}
+				}
+				return true
+			}
+		}
+	}
+	return false
+}
+
+func (c *effCtx) mayLogFunc(fn *ssa.Function) bool {
+	if c.logMemo == nil {
+		c.logMemo = map[*ssa.Function]int{}
+	}
+	switch c.logMemo[fn] {
+	case 1:
+		return false // in progress or known false
+	case 2:
+		return true
+	}
+	c.logMemo[fn] = 1
+	if fn.Pkg == nil || !strings.HasPrefix(fn.Pkg.Pkg.Path(), ModulePath) {
+		if fc := c.P.Contracts.Funcs[externKey(fn)]; fc != nil {
+			if fc.Logged {
+				c.logMemo[fn] = 2
+				return true
+			}
+			return false
+		}
+		// library code does not call back into logged contracts unless it is handed a closure; conservative:
+		if fn.Blocks == nil {
+			return false
+		}
+	}
+	if fc := c.P.Contracts.Funcs[FuncKey(fn)]; fc != nil && fc.Logged {
+		c.logMemo[fn] = 2
+		return true
+	}
+	if c.mayLogBlocks(fn, fn.Blocks) {
+		c.logMemo[fn] = 2
+		return true
+	}
+	return false
 }
